@@ -18,7 +18,7 @@ HAND["c05"] = [
     o_sec("kv", [], F_KEYSTRVAL),
 ]
 SPECIAL = ["\"", "\\", "$", "{", "}", "'", "#", "/", "*", ",", "=", "\n", "\t", "${", "*/", "//", "\\n", "${HOME}", "/*", " ", "\r",
-           "\x01", "\x7f", "\x80", "\xff", "(", ")", "+=", "|", ";"]
+           "\x01", "\x7f", "\x80", "\xff", "(", ")", "+=", "|", ";", "\r\n", "\n\r", "\\\n", " \n", "\t\n"]
 strings = st.lists(st.sampled_from(SPECIAL) | st.text(alphabet=st.characters(min_codepoint=1, max_codepoint=255), max_size=3) |
                    st.sampled_from(["a", "word", "1", "true"]), max_size=6).map("".join)
 floats = st.floats(allow_nan=False, allow_infinity=False, width=64) | st.sampled_from([0.0, -0.0, 1.5, 1e-10, 123456.789, 1e300, -2.5e-7])
